@@ -418,6 +418,13 @@ def system_family(ctx, catname="MCCat", quick_idx="QuickIdx", relabel=None, extr
             cat = json.loads(json.loads(m.group(1)))
     if cat is None:
         raise Broken("no catalogue emitted by MCSystem")
+    nfixed = len(cat)
+    if catname == "MCCat":
+        # random catalogue items (types without maps, zero value + random value): histories over arbitrary types, not only the hand-picked ones
+        pr = fam_codec.gen_random(ctx.pvh, ctx.work, 14 if ctx.quick else 80, ctx.seed + 3, cfg="default", kind="catitem", tag="catitems")
+        for line in open(pr):
+            if len(line) < 6000:
+                cat.append(json.loads(line))
     catp = os.path.join(ctx.work, "cat.json")
     json.dump(cat, open(catp, "w"))
     os.environ["PVH_CAT"] = catp
@@ -430,13 +437,13 @@ def system_family(ctx, catname="MCCat", quick_idx="QuickIdx", relabel=None, extr
     log("MCSystem: design %d states; %d exhaustive histories; %d random histories" % (st["distinct"], len(cases), nsim))
     sim = []
     # 4. capacity sweep: every spare capacity 0..460 x prefix {0, 3 bytes} for every item, then a second marshal into the grown buffer
-    for i in (range(1, len(cat) + 1) if sweep else []):
+    for i in (range(1, nfixed + 1) if sweep else []):
         for pre in ([], [1, 2, 3]):
             for spare in (range(0, 461) if i >= 12 or not ctx.quick else list(range(0, 40)) + [63, 64, 65, 127, 128, 129]):
                 sim.append({"ev": "hist", "steps": [
                     {"act": "newbuf", "b": "b1", "pre": pre, "spare": spare, "i": 0, "k": 0, "conv": ""},
                     {"act": "marshal", "b": "b1", "pre": [], "spare": 0, "i": i, "k": 2, "conv": "ptr"},
-                    {"act": "marshal", "b": "b1", "pre": [], "spare": 0, "i": 1 + (i % len(cat)), "k": 2, "conv": "val"}]})
+                    {"act": "marshal", "b": "b1", "pre": [], "spare": 0, "i": 1 + (i % nfixed), "k": 2, "conv": "val"}]})
     allc = cases + sim
     for c in allc:
         c["cfg"] = fam_codec.CFGS["default"]
